@@ -27,10 +27,12 @@ import (
 	"k8s.io/apimachinery/pkg/api/resource"
 	metav1 "k8s.io/apimachinery/pkg/apis/meta/v1"
 	"k8s.io/apimachinery/pkg/types"
+	fwktype "k8s.io/kube-scheduler/framework"
 	"k8s.io/kubernetes/pkg/scheduler/framework"
 
 	apiext "github.com/koordinator-sh/koordinator/apis/extension"
 	schedulingv1alpha1 "github.com/koordinator-sh/koordinator/apis/scheduling/v1alpha1"
+	"github.com/koordinator-sh/koordinator/pkg/scheduler/apis/config"
 	"github.com/koordinator-sh/koordinator/pkg/scheduler/frameworkext"
 	reservationutil "github.com/koordinator-sh/koordinator/pkg/util/reservation"
 	kit "github.com/koordinator-sh/koordinator/pkg/verifkit"
@@ -107,6 +109,12 @@ func c05NGenRsv(r *kit.Rand, i int, nodes []string) *schedulingv1alpha1.Reservat
 	if r.Pct(8) {
 		res.Spec.Unschedulable = true
 	}
+	if r.Pct(10) {
+		res.Spec.Taints = []corev1.Taint{{Key: "dedicated", Value: "x", Effect: corev1.TaintEffectNoSchedule}}
+	}
+	if r.Pct(20) {
+		res.Labels[apiext.LabelReservationOrder] = kit.Pick(r, []string{"1", "2", "3"})
+	}
 	c05MakeAvailable(res, kit.Pick(r, nodes))
 	return res
 }
@@ -158,6 +166,21 @@ func c05NGenPod(r *kit.Rand, i int, rsvNames []string) *c05NPod {
 		np.ignored = true
 		p.Labels[apiext.LabelReservationIgnored] = "true"
 	}
+	if np.affinity != "" && r.Pct(35) { // tolerations inside the reservation affinity
+		if aff, _ := apiext.GetReservationAffinity(p.Annotations); aff != nil {
+			if r.Bool() {
+				aff.Tolerations = append(aff.Tolerations, corev1.Toleration{Key: "dedicated", Operator: corev1.TolerationOpExists, Effect: corev1.TaintEffectNoSchedule})
+			}
+			if r.Bool() {
+				aff.Tolerations = append(aff.Tolerations, corev1.Toleration{Key: corev1.TaintNodeUnschedulable, Operator: corev1.TolerationOpExists, Effect: corev1.TaintEffectNoSchedule})
+			}
+			_ = apiext.SetReservationAffinity(p, aff)
+		}
+	}
+	if r.Pct(8) {
+		_ = apiext.SetExactMatchReservationSpec(p, &apiext.ExactMatchReservationSpec{ResourceNames: []corev1.ResourceName{corev1.ResourceCPU}})
+	}
+	c05Shape(r, &p.Spec)
 	np.req = c05PodRequests(p)
 	return np
 }
@@ -185,15 +208,50 @@ func TestVerifC05Nominate(t *testing.T) {
 		t.Fatalf("unexpected snapshot lister %T", pl.handle.SnapshotSharedLister())
 	}
 	ctx := context.TODO()
+	// the listers the plugin and its nominator read (informers are never started: the stores are filled by hand)
+	rsvStore := suit.extenderFactory.KoordinatorSharedInformerFactory().Scheduling().V1alpha1().Reservations().Informer().GetIndexer()
+	podStore := suit.fw.SharedInformerFactory().Core().V1().Pods().Informer().GetIndexer()
 
 	kit.Run(t, kit.Config{Property: "C05", Unit: "nominate", Quick: 6000, Thorough: 200000,
-		Rule: "2-5 Available reservations (owner specification of 1-3 entries from a pool of label / object / controller selectors, allocate-once default / true / false, default / Aligned / Restricted policy, group label, 8% unschedulable) on 3 nodes that never limit, 5-9 pods (labels, owner references, namespaces; 44% with a reservation affinity by selector, by name or by terms; 6% ignoring reservations), 8-20 steps: sequential scheduling cycles through the real plugin entry points ending in bind or Unreserve, deletion of assigned pods, completion of reservations, new reservations, edits of the restricted-options annotation of live Restricted reservations (incl. disjoint / mis-cased / duplicate lists), preemption dry runs (BeforePreFilter of a preemptor with a reservation affinity requesting reserved-1 / reserved / reserved+1 unit / far above of a Restricted reservation, RemovePod extension for a victim that is only nominated to the reservation and requests more than it has allocated, Filter); distinct = (#reservations, affinity kind, #matched on the node, allocate-once reservation with a pod among the matched, PreScore used, ReservationNominate used, outcome, policy and allocate-once of the nominated reservation); non-trivial = a cycle whose matched set contained an allocate-once reservation that already had an assigned pod"},
+		Rule: "2-5 (10%: 6-8) Available reservations, 10% tainted, 20% with a reservation-order label (owner specification of 1-3 entries from a pool of label / object / controller selectors, allocate-once default / true / false, default / Aligned / Restricted policy, group label, 8% unschedulable) on 1-3 of 3 nodes that never limit, per case with / without listers for the nominator, selector index, SkipReservationFitsNode, LazyReservationRestore (AfterPreFilter), 5-9 pods (labels, owner references, namespaces, init containers / overhead, tolerations in the affinity, exact-match spec; 44% with a reservation affinity by selector, by name or by terms; 6% ignoring reservations), 8-20 steps: sequential scheduling cycles through the real plugin entry points ending in bind or Unreserve, deletion of assigned pods, completion of reservations, new reservations, edits of the restricted-options annotation of live Restricted reservations (incl. disjoint / mis-cased / duplicate lists), preemption dry runs (BeforePreFilter of a preemptor with a reservation affinity requesting reserved-1 / reserved / reserved+1 unit / far above of a Restricted reservation, RemovePod extension for a victim that is only nominated to the reservation and requests more than it has allocated, Filter); distinct = (#reservations, affinity kind, #matched on the node, allocate-once reservation with a pod among the matched, PreScore used, ReservationNominate used, outcome, policy and allocate-once of the nominated reservation); non-trivial = a cycle whose matched set contained an allocate-once reservation that already had an assigned pod"},
 		func(c *kit.Case) {
 			r := c.R
-			cache := newReservationCache(nil)
+			cache := newReservationCache(pl.rLister)
+			// configuration: listers for the nominator (60%), selector index (50%), the feature-gated plugin
+			// switches SkipReservationFitsNode (30%) and LazyReservationRestore (25%)
+			withListers := r.Pct(60)
 			nm := newNominator(nil, nil)
+			if withListers {
+				nm = newNominator(pl.podLister, pl.rLister)
+			}
+			indexed := r.Bool()
+			if indexed {
+				if r.Bool() {
+					cache.setReservationSelectorIndexConfig(&config.ReservationSelectorIndexArgs{Enabled: true, KeyPrefixes: []string{"rsv-"}})
+				} else {
+					cache.setReservationSelectorIndexConfig(&config.ReservationSelectorIndexArgs{Enabled: true, Keys: []string{"rsv-group"}})
+				}
+			}
+			pl.enableSkipReservationFitsNode = r.Pct(30)
+			pl.enableLazyReservationRestore = r.Pct(25)
+			lazy := pl.enableLazyReservationRestore
 			pl.reservationCache, pl.nominator = cache, nm
 			ph := &podEventHandler{cache: cache, nominator: nm}
+			// 1-3 of the nodes hold reservations (one node concentrates every reservation on it)
+			nodeNames := nodeNames[:r.Weighted(0, 15, 25, 60)]
+			c.Op("config: listers=%v selectorIndex=%v skipFitsNode=%v lazyRestore=%v nodes=%v", withListers, indexed, pl.enableSkipReservationFitsNode, lazy, nodeNames)
+			if indexed {
+				c.Count("cases_with_selector_index", 1)
+			}
+			if lazy {
+				c.Count("cases_with_lazy_restore", 1)
+			}
+			if pl.enableSkipReservationFitsNode {
+				c.Count("cases_with_skip_fits_node", 1)
+			}
+			if len(nodeNames) == 1 {
+				c.Count("cases_single_node", 1)
+			}
 			var rsvs []*c05NRsv
 			var rsvNames []string
 			addRsv := func() {
@@ -203,7 +261,11 @@ func TestVerifC05Nominate(t *testing.T) {
 				cache.updateReservation(res)
 				c.Op("informer: reservation added %s owners=%s", c05RsvStr(res), c05OwnersStr(res.Spec.Owners))
 			}
-			for i, n := 0, r.Range(2, 5); i < n; i++ {
+			nrsv := r.Range(2, 5)
+			if r.Pct(10) {
+				nrsv = r.Range(6, 8)
+			}
+			for i := 0; i < nrsv; i++ {
 				addRsv()
 			}
 			var pods []*c05NPod
@@ -234,6 +296,20 @@ func TestVerifC05Nominate(t *testing.T) {
 					}
 				}
 				*lister = *newFakeSharedLister(snapPods, nodes, false)
+				// the informer stores: live reservations, existing pods
+				var rs, ps []interface{}
+				for _, x := range rsvs {
+					if !x.gone {
+						rs = append(rs, x.res)
+					}
+				}
+				for _, np := range pods {
+					if !np.deleted {
+						ps = append(ps, np.pod)
+					}
+				}
+				_ = rsvStore.Replace(rs, "")
+				_ = podStore.Replace(ps, "")
 			}
 			liveAssigned := func(uid types.UID, except types.UID) []types.UID {
 				ri := cache.reservationInfos[uid]
@@ -403,6 +479,11 @@ func TestVerifC05Nominate(t *testing.T) {
 				if _, _, st := pl.BeforePreFilter(ctx, cs, q); !st.IsSuccess() {
 					return
 				}
+				if lazy {
+					if st := pl.AfterPreFilter(ctx, cs, q, &fwktype.PreFilterResult{}); !st.IsSuccess() {
+						return
+					}
+				}
 				state := getStateData(cs)
 				var considered []*frameworkext.ReservationInfo
 				target := false
@@ -422,7 +503,9 @@ func TestVerifC05Nominate(t *testing.T) {
 					return
 				}
 				live := cache.getReservationInfoByUID(res.UID)
+				_ = podStore.Add(victim)
 				pl.nominator.AddNominatedReservation(victim, node, live)
+				_ = podStore.Delete(victim)
 				nodeInfo, _ := lister.Get(node)
 				victimInfo, err := framework.NewPodInfo(victim)
 				if err != nil {
@@ -565,7 +648,7 @@ func TestVerifC05Nominate(t *testing.T) {
 					c.Count("op_reservation_completed", 1)
 					continue
 				case 3:
-					if len(rsvs) < 7 {
+					if len(rsvs) < 10 {
 						addRsv()
 						c.Count("op_reservation_added", 1)
 					}
@@ -590,6 +673,12 @@ func TestVerifC05Nominate(t *testing.T) {
 					c.Op("step %d cycle of %s: BeforePreFilter failed: %v", step, pod.Name, st.Message())
 					c.Count("cycle_before_prefilter_failed", 1)
 					continue
+				}
+				if lazy {
+					if st := pl.AfterPreFilter(ctx, cs, pod, &fwktype.PreFilterResult{}); !st.IsSuccess() {
+						c.Count("cycle_after_prefilter_failed", 1)
+						continue
+					}
 				}
 				state := getStateData(cs)
 				var candNodes []string
